@@ -66,14 +66,26 @@ def _lit(t, av, flags):
 
 
 class _Matcher:
-    def __init__(self, tree, flags, terms):
-        self.tree, self.flags, self.terms = tree, flags, terms
+    """Concolic backtracking matcher: mirrors `re`'s search order on the concrete string and records every
+    character test it performs as a branch (so the path condition is exactly the set of tests the engine made)."""
+
+    def __init__(self, tree, flags, terms, conc):
+        self.tree, self.flags, self.terms, self.conc = tree, flags, terms, conc
         self.n = len(terms)
+        self.sub = [(t, z3.IntVal(ord(ch))) for t, ch in zip(terms, conc) if not z3.is_int_value(t)]
+
+    def test(self, cond):
+        cond = z3.simplify(cond)
+        if z3.is_true(cond):
+            return True
+        if z3.is_false(cond):
+            return False
+        return branch(cond, _ceval(cond, self.sub))
 
     def seq(self, nodes, pos, groups):
-        """yield (endpos, conds, groups) for matching the node sequence at pos, in backtracking priority order"""
+        """yield (endpos, groups) for matching the node sequence at pos, in backtracking priority order"""
         if not nodes:
-            yield pos, [], groups
+            yield pos, groups
             return
         (op, av), rest = nodes[0], nodes[1:]
         if op == C.BRANCH:
@@ -87,11 +99,10 @@ class _Matcher:
             if gid is None:
                 yield from self.seq(list(sub) + rest, pos, groups)
                 return
-            for e, cs, g in self.seq(list(sub), pos, groups):
+            for e, g in self.seq(list(sub), pos, groups):
                 g2 = dict(g)
                 g2[gid] = (pos, e)
-                for e2, cs2, g3 in self.seq(rest, e, g2):
-                    yield e2, cs + cs2, g3
+                yield from self.seq(rest, e, g2)
             return
         if op in (C.MAX_REPEAT, C.MIN_REPEAT):
             lo, hi, sub = av
@@ -101,25 +112,22 @@ class _Matcher:
             ok = None
             if av in (C.AT_BEGINNING, C.AT_BEGINNING_STRING):
                 if pos == 0:
-                    ok = []
+                    ok = True
                 elif av == C.AT_BEGINNING and (self.flags & re.M):
-                    ok = [self.terms[pos - 1] == 10]
+                    ok = self.test(self.terms[pos - 1] == 10)
             elif av == C.AT_END:
                 if pos == self.n:
-                    ok = []
+                    ok = True
                 elif self.flags & re.M:
-                    ok = [self.terms[pos] == 10]
+                    ok = self.test(self.terms[pos] == 10)
                 elif pos == self.n - 1:
-                    ok = [self.terms[pos] == 10]
+                    ok = self.test(self.terms[pos] == 10)
             elif av == C.AT_END_STRING:
-                if pos == self.n:
-                    ok = []
+                ok = pos == self.n
             else:
                 raise Unsupported(f"at {av}")
-            if ok is None:
-                return
-            for e, cs, g in self.seq(rest, pos, groups):
-                yield e, ok + cs, g
+            if ok:
+                yield from self.seq(rest, pos, groups)
             return
         # single-character consumers
         if pos >= self.n:
@@ -135,11 +143,8 @@ class _Matcher:
             c = z3.BoolVal(True) if self.flags & re.S else (t != 10)
         else:
             raise Unsupported(f"op {op}")
-        c = z3.simplify(c)
-        if z3.is_false(c):
-            return
-        for e, cs, g in self.seq(rest, pos + 1, groups):
-            yield e, ([] if z3.is_true(c) else [c]) + cs, g
+        if self.test(c):
+            yield from self.seq(rest, pos + 1, groups)
 
     def repeat(self, sub, lo, hi, greedy, rest, pos, groups, count):
         can_stop = count >= lo
@@ -148,11 +153,10 @@ class _Matcher:
         def more():
             if not can_more:
                 return
-            for e, cs, g in self.seq(sub, pos, groups):
+            for e, g in self.seq(sub, pos, groups):
                 if e == pos and count >= lo:
                     continue  # empty iteration: re stops the loop
-                for e2, cs2, g2 in self.repeat(sub, lo, hi, greedy, rest, e, g, count + 1):
-                    yield e2, cs + cs2, g2
+                yield from self.repeat(sub, lo, hi, greedy, rest, e, g, count + 1)
 
         def stop():
             if can_stop:
@@ -168,6 +172,28 @@ class _Matcher:
 
 def _ceval(c, sub):
     return z3.is_true(z3.simplify(z3.substitute(c, *sub))) if sub else z3.is_true(z3.simplify(c))
+
+
+_OK_OPS = {C.LITERAL, C.NOT_LITERAL, C.IN, C.ANY, C.BRANCH, C.SUBPATTERN, C.MAX_REPEAT, C.MIN_REPEAT, C.AT}
+
+
+def _validate(nodes):
+    for op, av in nodes:
+        if op not in _OK_OPS:
+            raise Unsupported(f"op {op}")
+        if op == C.BRANCH:
+            for alt in av[1]:
+                _validate(list(alt))
+        elif op == C.SUBPATTERN:
+            if av[1] or av[2]:
+                raise Unsupported("inline flags")
+            _validate(list(av[3]))
+        elif op in (C.MAX_REPEAT, C.MIN_REPEAT):
+            _validate(list(av[2]))
+        elif op == C.IN:
+            for o, a in av:
+                if o not in (C.NEGATE, C.LITERAL, C.RANGE, C.CATEGORY):
+                    raise Unsupported(f"class item {o}")
 
 
 class SymMatch:
@@ -218,6 +244,7 @@ class SymPattern:
         self.pattern = real.pattern
         parsed = sre_parse.parse(real.pattern, real.flags)
         self.tree = list(parsed)
+        _validate(self.tree)
         self.ngroups = real.groups
         self.names = dict(real.groupindex)
         self.stats = {"matches": 0, "candidates": 0}
@@ -227,27 +254,22 @@ class SymPattern:
 
     def _match_at(self, s, pos, full=False):
         terms, conc = cterms(s), sraw(s)
-        sub = [(t, z3.IntVal(ord(ch))) for t, ch in zip(terms, conc) if not z3.is_int_value(t)]
         real_m = self.real.fullmatch(conc, pos) if full else self.real.match(conc, pos)
-        m = _Matcher(self.tree, self.flags, terms)
+        m = _Matcher(self.tree, self.flags, terms, conc)
         taken = None
         nodes = self.tree + ([(C.AT, C.AT_END_STRING)] if full else [])
-        for e, cs, g in m.seq(nodes, pos, {}):
-            self.stats["candidates"] += 1
-            cond = z3.And(cs) if len(cs) > 1 else (cs[0] if cs else z3.BoolVal(True))
-            cval = all(_ceval(c, sub) for c in cs)
-            if branch(cond, cval):
-                taken = (e, g)
-                break
+        for e, g in m.seq(nodes, pos, {}):
+            taken = (e, g)
+            break
         self.stats["matches"] += 1
         if (taken is None) != (real_m is None) or (taken is not None and taken[0] != real_m.end()):
-            raise EngineAbort(f"regex shim disagrees with re for {self.pattern!r} on {conc!r} at {pos}")
+            raise EngineAbort(f"regex shim disagrees with re for {self.pattern[:60]!r} on {conc!r} at {pos}")
         if taken is None:
             return None
         e, g = taken
         for gid, (a, b) in g.items():
             if real_m.span(gid) != (a, b):
-                raise EngineAbort(f"regex shim group {gid} disagrees with re for {self.pattern!r} on {conc!r}")
+                raise EngineAbort(f"regex shim group {gid} disagrees with re for {self.pattern[:60]!r} on {conc!r}")
         return SymMatch(s, pos, e, g, self.ngroups, self.names, real_m.lastgroup)
 
     def match(self, s, pos=0, *a):
